@@ -36,6 +36,11 @@ TNew     == Step("new")     /\ Repl1(Ev.x, [i \in Idx(Ev.x) |-> 0]) /\ cit' = [j
 TWrite   == Step("write")   /\ Ev.i \in Idx(M) /\ Val1(CWrite(C, Ev.i, Ev.x)) /\ UNCHANGED cit
 TReset   == Step("reset")   /\ Val1(CReset(C)) /\ UNCHANGED cit
 TSwap    == Step("swap")    /\ Ev.i \in Idx(M) /\ Ev.k \in Idx(M) /\ Struct1(CSwap(C, Ev.i, Ev.k)) /\ UNCHANGED cit
+(* square sparse matrices only: x = number of columns *)
+TSwapRows == Step("swaprows") /\ Ev.x * Ev.x = M /\ Ev.i \in Idx(Ev.x) /\ Ev.k \in Idx(Ev.x)
+                              /\ Struct1(CSwapRows(C, Ev.x, Ev.i, Ev.k)) /\ UNCHANGED cit
+TSwapCols == Step("swapcols") /\ Ev.x * Ev.x = M /\ Ev.i \in Idx(Ev.x) /\ Ev.k \in Idx(Ev.x)
+                              /\ Struct1(CSwapCols(C, Ev.x, Ev.i, Ev.k)) /\ UNCHANGED cit
 TReverse == Step("reverse") /\ Struct1(CReverse(C, M)) /\ UNCHANGED cit
 TPermute == Step("permute") /\ Len(Ev.p) = M /\ Struct1(CPermute(C, Ev.p, M)) /\ UNCHANGED cit
 TSort    == Step("sort")    /\ Struct1(CSort(C, M, Ev.x = 1)) /\ UNCHANGED cit
@@ -56,7 +61,7 @@ TJWalk   == Step("jwalk")   /\ Len(Ev.w) = M /\ Same /\ UNCHANGED cit
 
 TraceInit == /\ l = 1 /\ n = [o \in Objs |-> 0] /\ content = [o \in Objs |-> <<>>]
              /\ cit = [j \in 1..NI |-> IterDead] /\ must = {} /\ taint = [o \in Objs |-> {}]
-TraceNext == TNew \/ TWrite \/ TReset \/ TSwap \/ TReverse \/ TPermute \/ TSort \/ TSlice \/ TAppendS
+TraceNext == TNew \/ TWrite \/ TReset \/ TSwap \/ TSwapRows \/ TSwapCols \/ TReverse \/ TPermute \/ TSort \/ TSlice \/ TAppendS
              \/ TAppendV \/ TArith \/ TIter \/ TFrom \/ TNext \/ TWalk \/ TJWalk
 TraceSpec == TraceInit /\ [][TraceNext]_tvars
 
